@@ -149,6 +149,7 @@ def run_race(case, scratch, extra_args=(), faults=None, instrument=None):
             k.add_system(h, {"coordinator": False, "ip": h}, wall_skew=(offs.uniform(-2, 2) if big else 0.0))
     if case.get("wakeup_jitter"):
         k.wakeup_jitter = lambda rec, period: rng.random() * case["wakeup_jitter"]
+    k.wall_deadline = case.get("wall_deadline")
     tr.kernel = k
 
     sim = simes.SimES(k.clock, service_script(case), keep_bodies=case.get("keep_bodies", False))
@@ -234,7 +235,7 @@ def run_race(case, scratch, extra_args=(), faults=None, instrument=None):
             except BaseException as e:  # noqa
                 tr.exception = f"{type(e).__name__}: {e}"
             # let exit requests and anything still in flight settle for a bounded stretch of virtual time
-            if not (tr.exception or "").startswith("Budget"):
+            if not k.budget_exceeded:
                 k.drain(300.0)
     finally:
         for u in reversed(undo):
@@ -253,7 +254,7 @@ def run_race(case, scratch, extra_args=(), faults=None, instrument=None):
             tr.race_file = {"unreadable": str(e)}
     tr.stalled = k.stalled
     tr.stall_reason = k.stall_reason
-    tr.budget = (tr.exception or "").startswith("Budget")
+    tr.budget = k.budget_exceeded or (tr.exception or "").startswith("Budget")
     tr.fingerprint = tuple(k.fingerprint)
     tr.track_dir = track_dir
     if not case.get("keep_files"):
